@@ -2069,3 +2069,10 @@ m("C14", "stamp-before-flag-down", "template.py",
 """, """                self._v_last_read = mtime
                 self._cooked = False
 """)
+
+m("C05", "identifier-prefix-unmangled", C,
+  'return "__{}_{}".format(mangle(prefix), mangle(suffix or id(prefix)))',
+  'return "__{}_{}".format(prefix, mangle(suffix or id(prefix)))')
+m("C08", "identifier-prefix-unmangled", C,
+  'return "__{}_{}".format(mangle(prefix), mangle(suffix or id(prefix)))',
+  'return "__{}_{}".format(prefix, mangle(suffix or id(prefix)))')
